@@ -735,7 +735,7 @@ template<class T> struct RandomDriver
          case 9: Do(OP_EnsureSize, rng.Chance(6) ? BigCode() : (int) rng.Below(14)); break;
          case 10: Do(OP_EnsureSizeSet, rng.Chance(6) ? BigCode() : (int) rng.Below((uint32) Size()+4)); break;
          case 11: if (rng.Chance(6)) Do(rng.Chance(35) ? OP_EnsureSizeSetX : OP_EnsureSizeX, BigCode(), 0, (int) rng.Below(2));
-                  else if (rng.Chance(8)) Do(OP_EnsureSizeX, rng.Chance(20) ? BigCode() : (int) rng.Below(12), BigCode(), (int) rng.Below(2));     // a boundary value for extraReallocItems (not together with setNumItems = true: reported divergence from the header)
+                  else if (rng.Chance(8)) Do(rng.Chance(40) ? OP_EnsureSizeSetX : OP_EnsureSizeX, rng.Chance(20) ? BigCode() : (int) rng.Below(12), BigCode(), (int) rng.Below(2));     // a boundary value for extraReallocItems
                   else Do(rng.Chance(35) ? OP_EnsureSizeSetX : OP_EnsureSizeX, (int) rng.Below(12), (int) rng.Below(3), (int) rng.Below(2));
                   break;    // EnsureSize(n, set, extra, allowShrink), n below the item count included
          case 12: Do(OP_EnsureCanAdd, rng.Chance(8) ? BigCode() : (int) rng.Below(6)); break;
@@ -979,6 +979,17 @@ static int Directed(const char * name, const char * outFile)
       rec.set("reproduced", mj::Value::Bool((got != want)||((r.IsOK())&&(q->GetNumAllocatedItemSlots() < 20)))).set("status", mj::Value::Str(S(r))).set("expected", IVJson(want)).set("observed", IVJson(got)).set("slots", mj::Value::Int(q->GetNumAllocatedItemSlots()));
       delete q;
    }
+   else if (!strcmp(name, "extraignored")) {
+      // "[extraReallocItems] is ignored if (setNumItems) is true".  A: Queue<int> [1..8]; EnsureSize(20, true, 0xFFFFFFF0) succeeds with 20 items (12 default ones added);
+      // B: Queue<int> [1..8]; EnsureSize(2, true, 0xFFFFFFFF, true) succeeds with [1,2] - in particular it is not a failure that has truncated the Queue.
+      Queue<int> a; for (int i=1; i<=8; i++) (void) a.AddTail(i); const status_t ra = a.EnsureSize(20, true, 0xFFFFFFF0u);
+      IV gotA; for (uint32 i=0; i<a.GetNumItems(); i++) gotA.push_back(a[i]);
+      IV wantA(20, 0); for (int i=0; i<8; i++) wantA[i] = i+1;
+      Queue<int> b; for (int i=1; i<=8; i++) (void) b.AddTail(i); const status_t rb = b.EnsureSize(2, true, 0xFFFFFFFFu, true);
+      IV gotB; for (uint32 i=0; i<b.GetNumItems(); i++) gotB.push_back(b[i]);
+      IV wantB; wantB.push_back(1); wantB.push_back(2);
+      rec.set("reproduced", mj::Value::Bool((ra.IsError())||(rb.IsError())||(gotA != wantA)||(gotB != wantB))).set("status", mj::Value::Str(std::string(S(ra)) + " / " + S(rb))).set("expected", IVJson(wantB)).set("observed", IVJson(gotB)).set("observed_A", IVJson(gotA));
+   }
    else {fclose(out); return 2;}
    fprintf(out, "%s\n", mj::ToString(rec).c_str()); fclose(out);
    return 0;
@@ -998,6 +1009,6 @@ int main(int argc, char ** argv)
       if (!strcmp(argv[2], "Tok"))    return Random<Tok>(seed, runs, nops, argv[6], argv[7]);
    }
    if ((argc >= 4)&&(!strcmp(argv[1], "directed"))) return Directed(argv[2], argv[3]);
-   fprintf(stderr, "usage: qu replay <behaviours> <report> [int|String|Tok] | qu random <int|String|Tok> <seed> <runs> <ops> <trace> <report> | qu directed <swapstale|shrinkoverflow|addheadself|ensuresizerealloc|addheadstart|extraoverflow> <report>\n");
+   fprintf(stderr, "usage: qu replay <behaviours> <report> [int|String|Tok] | qu random <int|String|Tok> <seed> <runs> <ops> <trace> <report> | qu directed <swapstale|shrinkoverflow|addheadself|ensuresizerealloc|addheadstart|extraoverflow|extraignored> <report>\n");
    return 2;
 }
